@@ -46,7 +46,7 @@ def units(tier):
     for sh in range(8):
         out.append({'fam': 'many', 'groups': ng, 'shard': [sh, 8]})
     Ln = 5 if tier == 'quick' else 7
-    for fam in ('ingroup', 'inroll21', 'inroll22', 'insplit', 'groupgroup_stream'):
+    for fam in ('ingroup', 'inroll21', 'inroll22', 'insplit', 'groupgroup_stream', 'split_gg', 'g_roll_g', 'roll_gg'):
         for sh in range(4):
             out.append({'fam': fam, 'L': Ln, 'shard': [sh, 4]})
     d = 8 if tier == 'quick' else 10
@@ -111,6 +111,17 @@ def run_case(case, acc):
     elif fam == 'groupgroup_stream':
         opspecs.FUNCS.setdefault('k_lt3', lambda x: 10 ** 20 + (1 if x % 10 < 3 else 0))
         spec = [['group_by', 'k_lt3', [['group_by', 'k_mixed', [['identity']]]]]]
+    elif fam in ('split_gg', 'g_roll_g', 'roll_gg'):
+        # two group_by operators in one pipeline under a parent whose lifetimes end mid-stream
+        opspecs.FUNCS.setdefault('k_lt3', lambda x: 10 ** 20 + (1 if x % 10 < 3 else 0))
+        opspecs.FUNCS.setdefault('p_tens_even', lambda x: (x // 10) % 2 == 0)
+        gg = [['group_by', 'k_lt3', [['group_by', 'k_mixed', [['to_list']]], ['to_list']]]]
+        if fam == 'split_gg':
+            spec = [['split', 'p_tens_even', gg + [['to_list']]]]
+        elif fam == 'roll_gg':
+            spec = [['roll', 3, 3, gg + [['to_list']]]]
+        else:
+            spec = [['group_by', 'k_lt3', [['roll', 2, 2, [['group_by', 'k_mixed', [['to_list']]], ['to_list']]], ['to_list']]]]
     elif fam == 'inroll21':
         spec = [['roll', 2, 1, [['group_by', 'k_mixed', [['to_list']]], ['to_list']]]]
     elif fam == 'inroll22':
